@@ -157,3 +157,48 @@ def _set_any_frame(s, name, value):
             f[name] = value
             return
     s.frames[-1][name] = value
+
+
+# ------------------------------------------------------------------------------------------------ C11: the iterator's frame image
+def frame_image_world(eng, cls, also_same=True):
+    """_get_render_data (its own unit proves: the image handed back is the one given, or a new open one) - as seen by a render function:
+    besides a new image, the VERY image passed in may come back (nothing had to be converted or resized).  Records the image handed
+    back in ghost `rd_returned`; `_close_image` calls are recorded in ghost `closed_ids`."""
+    orig = eng.methods[(cls, "_get_render_data")]
+
+    def grd(e, s, recv, a, k):
+        res = []
+        for val, s2 in orig(e, s, recv, a, k):
+            im = val[0]
+            s2 = e.fork(s2)
+            s2.ghost["rd_returned"] = im
+            res.append((val, s2))
+            if also_same and isinstance(a[0], Ref):
+                s3 = e.fork(s2)
+                src = a[0]
+                s3.H(src).update({k_: v_ for k_, v_ in s3.H(im).items() if k_ not in ("from", "role")})
+                s3.ghost["rd_returned"] = src
+                res.append(((src,) + tuple(val[1:]), s3))
+        return res
+    eng.methods[(cls, "_get_render_data")] = grd
+    orig_close = eng.methods.get((cls, "_close_image"))
+
+    def close_image(e, s, recv, a, k):
+        s = e.fork(s)
+        s.ghost["closed_ids"] = s.ghost.get("closed_ids", []) + [a[0].id if isinstance(a[0], Ref) else None]
+        return orig_close(e, s, recv, a, k) if orig_close is not None else [(None, s)]
+    eng.methods[(cls, "_close_image")] = close_image
+
+
+def frame_image_exits(eng, outs, img0, frame, replay="C11.frame_image"):
+    """ImageIterator renders every frame from ONE open image (frame=True): the render must not close it; any other image that
+    _get_render_data handed back is the render's to close"""
+    for kind, val, s in outs:
+        closed = s.ghost.get("closed_ids", [])
+        fr = to_z3(frame) if is_sym(frame) else z3.BoolVal(bool(frame))
+        eng.oblige(f"C11:the-iterator's-own-frame-image-is-not-closed-by-the-render@{kind}", s, Not(fr) if img0.id in closed else True, prop="C11", kind="exit",
+                   replay=replay)
+        ret = s.ghost.get("rd_returned")
+        if kind == "return" and isinstance(ret, Ref):
+            eng.oblige("C11:image-handed-back-by-_get_render_data-closed-unless-it-is-the-iterator's-frame-image", s,
+                       True if ret.id in closed else (fr if ret is img0 else False), prop="C11", kind="exit", replay=replay)
